@@ -96,7 +96,15 @@ fn wire_all() -> Vec<Job> {
 pub fn jobs_for(prop: &str) -> Vec<Job> {
     use crate::twin::TwinMode;
     match prop {
-        "C02" | "C08" => seq_all(Focus::General, 1),
+        "C02" | "C08" => {
+            let mut v = seq_all(Focus::General, 1);
+            // exhaustive small scope: every (chain length 0..8, base, snapshot?, class of parent)
+            let n = crate::seq::parentgrid_cases().len() as u64;
+            for (name, b, e) in [("parentgrid-mem-lib", Backend::Memory, Entry::Lib), ("parentgrid-mem-http", Backend::Memory, Entry::Http), ("parentgrid-sqlite-lib", Backend::Sqlite, Entry::Lib), ("parentgrid-sqlite-http", Backend::Sqlite, Entry::Http)] {
+                v.push(Job { name: name.into(), kind: JobKind::ParentGrid { backend: b, entry: e }, quick: n, thorough: n });
+            }
+            v
+        }
         "C01" | "C07" => {
             // sequential histories, plus the scheduled batches (forks and orphans under overlap)
             let mut v = seq_all(Focus::General, 1);
@@ -183,6 +191,7 @@ pub fn meta(prop: &str) -> Meta {
         "C13" => ("exploration", TWIN, None),
         "C15" | "C16" => ("exploration", WIRE, None),
         "C19" => ("exploration", COMPAT, None),
+        "C02" | "C08" => ("exploration", "cases = seeded sequential symbolic histories (3-60 ops, 1-4 clients, adversarial id classes incl. other clients' ids, clock jumps, chunked uploads, clean restarts, several server instances) compared step by step with the reference model; PLUS an exhaustive enumeration of the small scope: chain length 0..8 x chain base nil/non-nil x snapshot present or not x requested parent (nil, each version incl. the latest, chain base, fresh, another client's version), each as GetChildVersion / AddVersion / GetChildVersion on the same state, on 2 backends x 2 entry points (jobs parentgrid-*). A case is distinct by the hash of its (operation kind, argument class, outcome class) sequence and non-trivial when at least one AddVersion was accepted", None),
         "C10" => ("exploration", "cases = seeded sequential symbolic histories with snapshot focus (as for the other sequential checks: 3-60 ops, 1-4 clients, adversarial id classes incl. other clients' ids, restarts), compared step by step with the window-rule model; PLUS an exhaustive enumeration of the small scope: chain length 0..8 x chain base nil/non-nil x existing snapshot (none or at each version) x requested v (nil, each version, chain base, fresh, another client's version) = 840 cases, each on 2 backends x 2 entry points (jobs snapgrid-*). A case is distinct by the hash of its (operation kind, argument class, outcome class) sequence and non-trivial when at least one AddVersion was accepted", None),
         _ => ("exploration", SEQ, None),
     };
